@@ -24,6 +24,10 @@ Inductive op :=
 | Recv                                   (* conn.recv.get_next_message() *)
 | Unmarshal (b : nat) (idx : N)          (* UnmarshalContext::read_unixfd on body b's descriptor list with index idx read from the buffer *)
 | Parse (b : nat) (j : nat)              (* body.parser(): the j-th descriptor stored in body b's bytes *)
+| Decode (b : nat) (k : nat)             (* body.parser().get_param() (dynamic Param API) over the leading params of body b that
+                                            hold its first k stored descriptors; the decoded Params own the results *)
+| DecodeOwned (b : nat)                  (* msg.unmarshall_all(): the whole body through the dynamic API; consumes the message
+                                            (Message.raw_fds keeps the list); on Err the message is dropped *)
 | Clone (h : nat)                        (* h.clone() *)
 | DupH (h : nat)                         (* h.dup() *)
 | Take (h : nat)                         (* h.take_raw_fd() *)
@@ -35,6 +39,7 @@ Inductive res :=
 | RErr                        (* the call returned Err *)
 | RCfd (c : nat)              (* new descriptor slot of the caller *)
 | RHandle (h : nat)           (* new handle variable of the caller *)
+| RHandles (hs : list nat)    (* several new handle variables (one per decoded descriptor, in wire order) *)
 | RBody (b : nat)             (* new body *)
 | RPushed (idxs : list N)     (* Ok: the indices written into the body *)
 | RSent (hdr n : N)           (* Ok: UNIX_FDS header value (0 = field absent), number of descriptors attached to the first sendmsg *)
@@ -74,6 +79,35 @@ Definition ofds_of (s : st) (fds : list N) : list N := filter_some (map (tab s) 
 Definition unmarshal_at (bd : body) (idx : N) (s : st) : st * res :=
   match read_unixfd (bfds bd) idx with
   | Some o => (add_hnd o (clone_obj o s), RHandle (length (hnd s)))
+  | None => (s, RErr)
+  end.
+
+(** The dynamic API (wire/unmarshal/param/base.rs [unmarshal_base], reached from
+    [MessageBodyParser::get_param], [unmarshal_body] = [MarshalledMessage::unmarshall_all] and
+    [params::Variant]) decodes a descriptor with the very same call as the typed API:
+    [signature::Base::UnixFd => { let val = ctx.read_unixfd()?; Ok(params::Base::UnixFd(val)) }],
+    on an [UnmarshalContext] over the message's own [raw_fds]. A value with several descriptors is
+    that call once per stored index, [?] on each. *)
+Fixpoint read_all (fds : list nat) (idxs : list N) : option (list nat) :=
+  match idxs with
+  | [] => Some []
+  | i :: r =>
+    match read_unixfd fds i, read_all fds r with
+    | Some o, Some os => Some (o :: os)
+    | _, _ => None
+    end
+  end.
+
+(** every decoded descriptor is [val.clone()] in a new place owned by the caller *)
+Definition clone_all (os : list nat) (s : st) : st :=
+  fold_left (fun s o => add_hnd o (clone_obj o s)) os s.
+
+(** On [Err] the partially built value is dropped: the clones made so far go away again, while the
+    message still holds its own handle of each object, so no count reaches 0, nothing is closed
+    and the state is what it was. The model therefore decides first and clones only on success. *)
+Definition decode_at (bd : body) (idxs : list N) (s : st) : st * res :=
+  match read_all (bfds bd) idxs with
+  | Some os => (clone_all os s, RHandles (seq (length (hnd s)) (length os)))
   | None => (s, RErr)
   end.
 
@@ -148,6 +182,23 @@ Definition step (s : st) (o : op) : st * res :=
       match nth_error (bidx bd) j with
       | Some idx => unmarshal_at bd idx s
       | None => (s, RInvalid)
+      end
+    | None => (s, RInvalid)
+    end
+  | Decode b k =>
+    match lookup_b s b with
+    | Some bd => if (k <=? length (bidx bd))%nat then decode_at bd (firstn k (bidx bd)) s else (s, RInvalid)
+    | None => (s, RInvalid)
+    end
+  | DecodeOwned b =>
+    (* unmarshall_all(self): params = unmarshal_body(.., &self.body.raw_fds, ..)?;
+       Ok(Message { params, raw_fds: self.body.raw_fds, .. }): the list lives on in the Message (it
+       stays body b here); on Err `self` is dropped with everything it holds *)
+    match lookup_b s b with
+    | Some bd =>
+      match read_all (bfds bd) (bidx bd) with
+      | Some _ => decode_at bd (bidx bd) s
+      | None => (drop_objs (bfds bd) (set_body b None s), RErr)
       end
     | None => (s, RInvalid)
     end
@@ -232,6 +283,7 @@ Definition enc_res (r : res) : list N :=
   match r with
   | RInvalid => [0] | RUnit => [1] | RErr => [2]
   | RCfd c => [3; N.of_nat c] | RHandle h => [4; N.of_nat h] | RBody b => [5; N.of_nat b]
+  | RHandles l => 10 :: enc_list (fun x => [N.of_nat x]) l
   | RPushed l => 6 :: enc_list (fun x => [x]) l
   | RSent h n => [7; h; n]
   | RTaken None => [8] | RTaken (Some c) => [9; N.of_nat c]
